@@ -345,6 +345,39 @@ func ruleIDHandling(c *chk.Ctx) {
 			}
 		})
 		ok := len(lens) == 1 && lens[0] == 4 && len(bytes) == 4 && string([]byte{byte(bytes[0]), byte(bytes[1]), byte(bytes[2]), byte(bytes[3])}) == "null"
+		if !ok && len(lens) == 0 && len(bytes) == 0 {
+			// or a whole-value comparison with the constant text: string(msg) == "null"
+			cmp, other := 0, 0
+			ir.Instrs(f, func(ins ssa.Instruction) {
+				bo, isBO := ins.(*ssa.BinOp)
+				if !isBO {
+					return
+				}
+				sx, isX := constString(bo.X)
+				sy, isY := constString(bo.Y)
+				operand := bo.X
+				if isX {
+					operand = bo.Y
+				}
+				cv, isConv := operand.(*ssa.Convert)
+				_, fromParam := ssa.Value(nil), false
+				if isConv {
+					_, fromParam = cv.X.(*ssa.Parameter)
+				}
+				if bo.Op == token.EQL && ((isY && sy == "null") || (isX && sx == "null")) && fromParam {
+					cmp++
+				} else {
+					other++
+				}
+			})
+			allRet := true
+			for _, r := range ir.Returns(f) {
+				if _, isBO := ir.ReturnResult(r, 0).(*ssa.BinOp); !isBO {
+					allRet = false
+				}
+			}
+			ok = cmp == 1 && other == 0 && allRet
+		}
 		c.Check(ok, "TABLE.null", f, "null token", f.Pos(), "exactly the 4-byte token null counts as absent", fmt.Sprintf("the null predicate tests len %v and bytes %v, not exactly the token null", lens, bytes))
 	}
 	// the member parser stores the raw id only on the isValidID true edge
@@ -603,7 +636,16 @@ func ruleEncoderWritesIn(c *chk.Ctx, f *ssa.Function, encs map[*ssa.Function]boo
 		c.Check(ok, "PROV.encoder", f, "bytes written by the encoder", ci.Pos(), why, "the encoder writes bytes with an unsafe source: "+why+" (e.g. a method name written without JSON quoting/escaping)")
 	})
 	if n == 0 {
-		c.Undecided("PROV.encoder", f, "encoder writes", f.Pos(), "no buffer writes found in the encoder")
+		// a wrapper that delegates to another encoder function writes nothing itself
+		delegates := false
+		ir.Calls(f, func(ci ssa.CallInstruction) {
+			if g := ci.Common().StaticCallee(); g != nil && g != f && encs[g] {
+				delegates = true
+			}
+		})
+		if !delegates {
+			c.Undecided("PROV.encoder", f, "encoder writes", f.Pos(), "no buffer writes found in the encoder")
+		}
 	}
 	// errors of the element encoder / json.Marshal inside the encoder propagate: on the err != nil edge the function returns that error
 	ir.Instrs(f, func(ins ssa.Instruction) {
@@ -616,37 +658,65 @@ func ruleEncoderWritesIn(c *chk.Ctx, f *ssa.Function, encs map[*ssa.Function]boo
 		if !isMarshal && !isEnc {
 			return
 		}
+		// the call's error: the last component of its result tuple, or its only result
+		nres := 1
+		if tup, ok := call.Type().(*types.Tuple); ok {
+			nres = tup.Len()
+		}
+		isErrOf := func(v ssa.Value) bool {
+			if nres == 1 {
+				return v == ssa.Value(call)
+			}
+			return ir.IsExtractOf(v, call, nres-1)
+		}
+		last := f.Signature.Results().Len() - 1
+		if last < 0 {
+			return
+		}
 		// direct tail call `return x.toJSON()` is fine
 		tail := false
 		for _, r := range ir.Returns(f) {
-			if ir.IsExtractOf(ir.ReturnResult(r, 1), call, 1) && ir.IsExtractOf(ir.ReturnResult(r, 0), call, 0) {
+			if len(r.Results) != last+1 {
+				continue
+			}
+			if last == 1 && nres == 2 && ir.IsExtractOf(ir.ReturnResult(r, 1), call, 1) && ir.IsExtractOf(ir.ReturnResult(r, 0), call, 0) {
+				tail = true
+			}
+			if last == 0 && nres == 1 && ir.ReturnResult(r, 0) == ssa.Value(call) {
 				tail = true
 			}
 		}
 		if tail {
-			c.Pass("ERR.propagate", f, "encoder error propagates", call.Pos(), "result pair returned as is")
+			c.Pass("ERR.propagate", f, "encoder error propagates", call.Pos(), "result returned as is")
 			return
 		}
 		propagated := false
 		for _, r := range ir.Returns(f) {
-			if !ir.IsExtractOf(ir.ReturnResult(r, 1), call, 1) {
+			if len(r.Results) != last+1 || !isErrOf(ir.ReturnResult(r, last)) {
 				continue
 			}
-			sameErr := func(v ssa.Value) bool { return ir.IsExtractOf(v, call, 1) }
-			if ir.ProvesNonNil(ir.CondsAt(r.Block()), sameErr) {
+			if ir.ProvesNonNil(ir.CondsAt(r.Block()), isErrOf) {
 				propagated = true
 			}
 		}
 		// and the err != nil edge must lead only to that return
 		var errIf *ssa.If
-		for _, ref := range *call.Referrers() {
-			if e, ok := ref.(*ssa.Extract); ok && e.Index == 1 {
-				for _, r2 := range *e.Referrers() {
-					if bo, ok := r2.(*ssa.BinOp); ok {
-						for _, r3 := range *bo.Referrers() {
-							if iff, ok := r3.(*ssa.If); ok {
-								errIf = iff
-							}
+		var errVals []ssa.Value
+		if nres == 1 {
+			errVals = append(errVals, call)
+		} else {
+			for _, ref := range *call.Referrers() {
+				if e, ok := ref.(*ssa.Extract); ok && e.Index == nres-1 {
+					errVals = append(errVals, e)
+				}
+			}
+		}
+		for _, ev := range errVals {
+			for _, r2 := range *ev.Referrers() {
+				if bo, ok := r2.(*ssa.BinOp); ok {
+					for _, r3 := range *bo.Referrers() {
+						if iff, ok := r3.(*ssa.If); ok {
+							errIf = iff
 						}
 					}
 				}
@@ -660,7 +730,7 @@ func ruleEncoderWritesIn(c *chk.Ctx, f *ssa.Function, encs map[*ssa.Function]boo
 				succ = errIf.Block().Succs[1]
 			}
 			if len(succ.Instrs) > 0 {
-				if r, ok := succ.Instrs[len(succ.Instrs)-1].(*ssa.Return); ok && ir.IsExtractOf(ir.ReturnResult(r, 1), call, 1) {
+				if r, ok := succ.Instrs[len(succ.Instrs)-1].(*ssa.Return); ok && len(r.Results) == last+1 && isErrOf(ir.ReturnResult(r, last)) {
 					edgeOK = true
 				}
 			}
